@@ -39,6 +39,37 @@ func pureExpr(info *types.Info, e ast.Expr) bool {
 	return ok
 }
 
+// pureOrGetter: like pureExpr, and argument-less methods of module interfaces (accessors of
+// an origin, a target, a constraint) count as reads.
+func pureOrGetter(info *types.Info, e ast.Expr) bool {
+	ok := true
+	ast.Inspect(e, func(n ast.Node) bool {
+		if c, isC := n.(*ast.CallExpr); isC {
+			if tv, has := info.Types[c.Fun]; has && tv.IsType() {
+				return true
+			}
+			f := calleeOf(info, c)
+			if f == nil {
+				ok = false
+				return false
+			}
+			if pureMethods[f.Name()] || fname(f) == "String" || fname(f) == "Len" {
+				return true
+			}
+			sig, _ := f.Type().(*types.Signature)
+			if sig == nil || sig.Recv() == nil || len(c.Args) != 0 || f.Pkg() == nil || !strings.HasPrefix(f.Pkg().Path(), modPath) {
+				ok = false
+				return false
+			}
+			if _, isIface := sig.Recv().Type().Underlying().(*types.Interface); !isIface {
+				ok = false
+			}
+		}
+		return ok
+	})
+	return ok
+}
+
 func runSelfCompare(p *Prog, r *Report) {
 	n := 0
 	for _, fn := range p.Funcs {
@@ -96,6 +127,8 @@ func runSelfCompare(p *Prog, r *Report) {
 				n++
 				if exprStr(a) == exprStr(b) && pureExpr(info, a) && !strings.Contains(exprStr(a), "…") {
 					r.Add("E15.self-comparison", fn.Name, exprStr(x), p.Pos(x), Violated, "both arguments are the same expression: "+f.Name()+" compares a value with itself", true)
+				} else if ia, ib := fn.InlineLocals(a, 2), fn.InlineLocals(b, 2); exprStr(a) != exprStr(b) && exprStr(ia) == exprStr(ib) && pureOrGetter(info, ia) && !strings.Contains(exprStr(ia), "…") {
+					r.Add("E15.self-comparison", fn.Name, exprStr(x), p.Pos(x), Violated, "both arguments are defined as the same expression ("+exprStr(ia)+"): "+f.Name()+" compares a value with itself", true)
 				}
 			}
 			return true
@@ -615,6 +648,7 @@ func runStaleElementState(p *Prog, r *Report) {
 				// an assignment after which the loop is always left (return / break) hands nothing
 				// to a later iteration: the value read on the other paths is the one from before the loop
 				carries := false
+				var firstNode ast.Node
 				if len(rs.Body.List) > 0 {
 					first := ast.Node(rs.Body.List[0])
 					for k := 0; k < 4; k++ {
@@ -648,6 +682,7 @@ func runStaleElementState(p *Prog, r *Report) {
 						}
 						break
 					}
+					firstNode = first
 					for _, a := range asns {
 						if reachesStmt(fn, a, first, nil) {
 							carries = true
@@ -664,6 +699,19 @@ func runStaleElementState(p *Prog, r *Report) {
 					dom := false
 					for _, a := range asns {
 						if fn.Dominates(a, rd) {
+							dom = true
+						}
+					}
+					// or every way from the top of the body to the read crosses one of them
+					// (set in both arms of an if/else, in every case of a switch)
+					if !dom && firstNode != nil && fn.BlockOf(firstNode) != nil && fn.BlockOf(rd) != nil {
+						isAsn := false
+						for _, a := range asns {
+							if fn.CFGNodeOf(a) == fn.CFGNodeOf(firstNode) {
+								isAsn = true
+							}
+						}
+						if isAsn || (fn.CFGNodeOf(firstNode) != fn.CFGNodeOf(rd) && !reachesWithoutRedef(fn, firstNode, rd, o)) {
 							dom = true
 						}
 					}
